@@ -28,6 +28,7 @@ KNOWN = ("C02-MIXEDKIND", "C02-GONEREF")
 def cases(draw, tier):
     g = draw(gg.general(inst_props=(RDF_TYPE, RDF_TYPE, RDF_TYPE, "http://ex.org/isA")))
     cfg = draw(gg.switches())
+    cfg.update(draw(gg.harmless_extras()))
     cfg["instances_report_mode"] = "mixed"
     target = draw(common.target_spec(g))
     sel = refmodel.select_by_classes(triples_from_json(g["triples"]), g["inst_prop"])
